@@ -334,6 +334,62 @@ Pos synthetic(Rng& r, int templ) {
     }
 }
 
+bool reversible(const Pos& p, const Mv& m) { return !isCapture(p, m) && kindOf(p.b[m.from]) != K_P; }
+static bool keepsRights(const Pos& p, const Mv& m) { return make(p, m).castle == p.castle; }
+
+bool findCycle(Rng& r, const Pos& p, Mv out[4]) {
+    std::vector<Mv> la; genLegal(p, la);
+    for (int tries = 0; tries < 60; tries++) {
+        if (la.empty()) return false;
+        Mv a = la[r.below((int)la.size())];
+        if (!reversible(p, a) || !keepsRights(p, a)) continue;
+        Pos p1 = make(p, a);
+        std::vector<Mv> lb; genLegal(p1, lb); if (lb.empty()) continue;
+        Mv b = lb[r.below((int)lb.size())];
+        if (!reversible(p1, b) || !keepsRights(p1, b)) continue;
+        Pos p2 = make(p1, b);
+        Mv ar; ar.from = a.to; ar.to = a.from; ar.promo = 0;
+        if (!isLegal(p2, ar) || !reversible(p2, ar)) continue;
+        Pos p3 = make(p2, ar);
+        Mv br; br.from = b.to; br.to = b.from; br.promo = 0;
+        if (!isLegal(p3, br) || !reversible(p3, br)) continue;
+        Pos p4 = make(p3, br);
+        if (repKey(p4) != repKey(p)) continue;
+        out[0] = a; out[1] = b; out[2] = ar; out[3] = br;
+        return true;
+    }
+    return false;
+}
+
+bool epPinnedPush(Rng& r, Pos& p, Mv& push) {
+    bool whitePush = r.chance(50);
+    p = Pos(); p.wtm = whitePush;
+    int rk = whitePush ? 3 : 4;             // rank where the pushed pawn lands; enemy pawn and enemy king stand there
+    int pf = r.range(1, 6);                 // file of the pushing pawn
+    int ef = pf + (r.chance(50) ? 1 : -1);  // enemy pawn file
+    int lo = std::min(pf, ef), hi = std::max(pf, ef);
+    bool kingLeft = r.chance(50);
+    if ((kingLeft && (lo - 1 < 0 || hi + 1 > 7)) || (!kingLeft && (lo - 1 < 0 || hi + 1 > 7))) return false;
+    int kf = kingLeft ? r.range(0, lo - 1) : r.range(hi + 1, 7);
+    int sf = kingLeft ? r.range(hi + 1, 7) : r.range(0, lo - 1);
+    int own = whitePush ? 0 : 6, opp = whitePush ? 6 : 0;
+    p.b[sq(pf, whitePush ? 1 : 6)] = WP + own;
+    p.b[sq(ef, rk)] = WP + opp;
+    p.b[sq(kf, rk)] = WK + opp;
+    p.b[sq(sf, rk)] = (r.chance(50) ? WR : WQ) + own;
+    for (int t = 0; t < 50; t++) { int s = sq(r.below(8), whitePush ? 0 : 7); if (!p.b[s]) { p.b[s] = WK + own; break; } }
+    int extra = r.range(0, 3);
+    for (int i = 0; i < extra; i++) { int s = r.below(64); if (p.b[s] || rankOf(s) == rk || rankOf(s) == (whitePush ? 2 : 5) || rankOf(s) == 0 || rankOf(s) == 7) continue;
+        p.b[s] = (r.chance(50) ? WK : BK) + (const int[]){K_B, K_N, K_P}[r.below(3)]; }
+    p.hmc = r.below(20); p.fullMove = 10;
+    if (!plausible(p) || !countsOk(p)) return false;
+    push.from = sq(pf, whitePush ? 1 : 6); push.to = sq(pf, rk); push.promo = 0;
+    if (!isLegal(p, push)) return false;
+    Pos x = make(p, push);
+    if (!epPseudo(x) || epLegal(x)) return false;
+    return true;
+}
+
 Features features(const Pos& p) {
     Features ft;
     bool w = p.wtm;
